@@ -252,7 +252,7 @@ def train_off_policy(
                 epsilon = eps_start
 
             start_time = time.time()
-            for idx_step in range(evo_steps // num_envs):
+            for idx_step in range(max(1, evo_steps // num_envs)):
                 if swap_channels:
                     state = obs_channels_to_first(state)
 
